@@ -1,8 +1,8 @@
 /-
   Executable model of SDR record parsing (C16): `SdrCommon.from_data`, `SdrCommon.__init__`,
   `_common_header`, `_common_record_key`, `_entity`, `_device_id_string`, every `_from_data`
-  of pyipmi/sdr.py, `fields.TypeLengthString._from_data` / `_unpack6bitascii` and
-  `utils.bcd_decode`, mirroring the Python: same bit expressions (`&`, `|`, `<<`, `>>`), same
+  of pyipmi/sdr.py, `fields.TypeLengthString._from_data` / `_unpack6bitascii` (+ its BCD plus table
+  of the SDR path) and `utils.bcd_decode`, mirroring the Python: same bit expressions (`&`, `|`, `<<`, `>>`), same
   order of pops, same laxness (no length check, trailing bytes ignored, short id strings
   accepted) and the same exception kinds (`DecodingError` from `ByteBuffer`, `IndexError`,
   `AttributeError`, `ValueError` as `pyError`).  Input: the record as a byte list.
@@ -36,10 +36,17 @@ structure Variant where
   bcdRaises : Bool
   /-- 6-bit: a final group of 1 or 2 bytes raises IndexError  (intended: 1 resp. 2 characters) -/
   sixBitStrict : Bool
+  /-- BCD+ of an SDR id string is decoded with the 'bcd+' codec, i.e. the 13-entry FRU table
+  `utils.BCD_MAP`: a nibble Dh, Eh or Fh raises ValueError  (intended: the sixteen codes of §43.15,
+  `TypeLengthString.SDR_BCD_PLUS` indexed by the two nibbles) -/
+  bcdFruTable : Bool
+  /-- `channel_number` of the FRU device locator and of the MC confirmation record is the raw byte
+  (intended: bits [7:4]; the confirmation record's [3:0] are reported as `device_revision`) -/
+  chanRaw : Bool
   deriving Repr, DecidableEq, Inhabited
 
-def Variant.asShipped : Variant := ⟨true, true, true, true, true, true⟩
-def Variant.intended : Variant := ⟨false, false, false, false, false, false⟩
+def Variant.asShipped : Variant := ⟨true, true, true, true, true, true, true, true⟩
+def Variant.intended : Variant := ⟨false, false, false, false, false, false, false, false⟩
 
 /-- What `from_data` returns: the class (as kind), the attributes the specification speaks
 about, and attributes the specification does not speak about (compared with the real code by
@@ -80,6 +87,20 @@ def bcdDecode : List Nat → Outcome (List Nat)
       | e => e
     | _, _ => .pyError "ValueError"
 
+/-- The BCD plus decoder of the SDR path (intended):
+`''.join(self.SDR_BCD_PLUS[b >> 4] + self.SDR_BCD_PLUS[b & 0xf] for b in self.raw)`, with
+`SDR_BCD_PLUS = '0123456789 -.:,_'` (`Spec.Sdr.bcdPlusSdr`; `Props.C16.bcd_plus_sdr_table` proves that the table
+regenerated from the working tree, `Gen.SdrTables.sdrBcdMap`, is this one). -/
+def sdrBcdDecode : List Nat → Outcome (List Nat)
+  | [] => .ok []
+  | d :: ds =>
+    match bcdPlusSdr[d >>> 4]?, bcdPlusSdr[d &&& 0xf]? with
+    | some hi, some lo =>
+      match sdrBcdDecode ds with
+      | .ok rest => .ok (hi :: lo :: rest)
+      | e => e
+    | _, _ => .pyError "IndexError"
+
 /-- `_unpack6bitascii`: groups of three bytes, four characters each.  As shipped a final group
 of one or two bytes raises IndexError (`d[1]` / `d[2]`); intended: one resp. two characters. -/
 def unpack6 (strict : Bool) : List Nat → Outcome (List Nat)
@@ -110,7 +131,8 @@ def idString (v : Variant) (buf : List Nat) : Outcome Fields :=
     let fieldType := (tl >>> 6) &&& 0x3
     let raw := (data.drop 1).take (tl &&& 0x3f)       -- data[1:1+length]
     let str : Outcome (List Nat) :=
-      if fieldType = 1 then (if v.bcdRaises then .pyError "AttributeError" else bcdDecode raw)
+      if fieldType = 1 then
+        (if v.bcdRaises then .pyError "AttributeError" else if v.bcdFruTable then bcdDecode raw else sdrBcdDecode raw)
       else if fieldType = 2 then unpack6 v.sixBitStrict raw
       else .ok raw
     match str with
@@ -227,7 +249,7 @@ def parseFruLocator (v : Variant) (body : List Nat) : Outcome (Fields × Fields)
   | aa :: fid :: lp :: ch :: r0 :: dt :: dtm :: eid :: einst :: oem :: rest =>
     let fs : Fields :=
       [("device_access_address", .nat (aa >>> 1)), ("fru_device_id", .nat fid),
-       ("logical_physical", .nat lp), ("channel_number", .nat ch),
+       ("logical_physical", .nat lp), ("channel_number", .nat (if v.chanRaw then ch else ch >>> 4)),
        ("reserved", .nat r0),
        ("device_type", .nat dt), ("device_type_modifier", .nat dtm),
        ("entity_id", .nat eid), ("entity_instance", .nat einst),
@@ -260,14 +282,15 @@ def parseMcLocator (v : Variant) (body : List Nat) : Outcome (Fields × Fields) 
 
 /-! ### type 13h -/
 
-def parseMcConfirmation (body : List Nat) : Outcome (Fields × Fields) :=
+def parseMcConfirmation (v : Variant) (body : List Nat) : Outcome (Fields × Fields) :=
   match body with
   | sa :: did :: ch :: f1 :: f2 :: iv :: m0 :: m1 :: m2 :: p0 :: p1 :: rest =>
     if rest.length < 16 then .decodingError
     else
-      .ok ([("device_slave_address", .nat (sa >>> 1)), ("device_id", .nat did),
-            ("channel_number", .nat ch),
-            ("firmware_revision_1", .nat f1), ("firmware_revision_2", .nat f2),
+      .ok ([("device_slave_address", .nat (sa >>> 1)), ("device_id", .nat did)] ++
+           (if v.chanRaw then [("channel_number", .nat ch)]
+            else [("channel_number", .nat (ch >>> 4)), ("device_revision", .nat (ch &&& 0xf))]) ++
+           [("firmware_revision_1", .nat f1), ("firmware_revision_2", .nat f2),
             ("ipmi_version", .nat iv),
             ("manufacturer_id", .nat (leOr [m0, m1, m2] &&& 0xfffff)),
             ("product_id", .nat (leOr [p0, p1])),
@@ -291,7 +314,7 @@ def parseKind (v : Variant) (k : Kind) (body : List Nat) : Outcome (Fields × Fi
   | .eventOnly => parseEventOnly v body
   | .fruLocator => parseFruLocator v body
   | .mcLocator => parseMcLocator v body
-  | .mcConfirmation => parseMcConfirmation body
+  | .mcConfirmation => parseMcConfirmation v body
   | .oem => parseOem body
   | .unknown => .ok ([], [])
 
